@@ -40,6 +40,12 @@ pub fn instants() -> Vec<(String, TimeSpec)> {
         ("2049-12-31T23:59:59Z".into(), TimeSpec::ymdhms(2049, 12, 31, 23, 59, 59)),
         ("2050-01-01T00:00:00Z".into(), TimeSpec::ymd(2050, 1, 1)),
         ("T0+30d".into(), p(30 * 86400, 0)),
+        // the same sub-second neighbourhood before 1970 (negative Unix time: floor and truncation differ)
+        ("P0".into(), TimeSpec::ymd(1960, 1, 1)),
+        ("P0+1ns".into(), TimeSpec { unix: TimeSpec::ymd(1960, 1, 1).unix, nanos: 1, offset: 0 }),
+        ("P0+500ms".into(), TimeSpec { unix: TimeSpec::ymd(1960, 1, 1).unix, nanos: 500_000_000, offset: 0 }),
+        ("P0-500ms".into(), TimeSpec { unix: TimeSpec::ymd(1960, 1, 1).unix - 1, nanos: 500_000_000, offset: 0 }),
+        ("P0+1s".into(), TimeSpec { unix: TimeSpec::ymd(1960, 1, 1).unix + 1, nanos: 0, offset: 0 }),
     ]
 }
 
@@ -50,8 +56,9 @@ pub fn serial_atoms() -> Vec<Vec<u8>> {
 pub const REASONS: [Option<u8>; 11] = [None, Some(0), Some(1), Some(2), Some(3), Some(4), Some(5), Some(6), Some(8), Some(9), Some(10)];
 
 pub fn atoms() -> Vec<RevokedSpec> {
-    let times = [TimeSpec::ymd(2023, 6, 1), TimeSpec::ymdhms(2049, 12, 31, 23, 59, 59), TimeSpec::ymd(2050, 1, 1).with_offset(3600)];
-    let inv = [None, Some(TimeSpec::ymd(2024, 3, 4)), Some(TimeSpec::ymd(2051, 1, 1)), Some(TimeSpec::ymdhms(2024, 2, 27, 2, 13, 20).with_nanos(500_000_000).with_offset(-3600))];
+    // the last value of each list: an instant whose date in the caller's offset differs from its UTC date
+    let times = [TimeSpec::ymd(2023, 6, 1), TimeSpec::ymdhms(2049, 12, 31, 23, 59, 59), TimeSpec::ymd(2050, 1, 1).with_offset(3600), TimeSpec::ymdhms(2023, 6, 2, 4, 30, 0).with_offset(-18000)];
+    let inv = [None, Some(TimeSpec::ymd(2024, 3, 4)), Some(TimeSpec::ymd(2051, 1, 1)), Some(TimeSpec::ymdhms(2024, 2, 27, 2, 13, 20).with_nanos(500_000_000).with_offset(-3600)), Some(TimeSpec::ymdhms(2024, 3, 3, 15, 15, 0).with_offset(32400)), Some(TimeSpec::ymdhms(2024, 3, 4, 3, 30, 0).with_offset(-18000))];
     let mut v = Vec::new();
     for s in serial_atoms() {
         for t in times {
@@ -199,8 +206,11 @@ fn revocation_verdicts(st: &CrlState, der: &[u8], out: &mut Vec<Finding>) {
             None
         }
     };
+    // webpki holds times as unsigned seconds since 1970: a CRL carrying an earlier time is outside what it can read
+    let pre_epoch = st.this_update.unix < 0 || st.next_update.unix < 0 || st.revoked.iter().any(|r| r.time.unix < 0);
     let wp: Option<webpki::CertRevocationList> = match webpki::BorrowedCertRevocationList::from_der(der) {
         Ok(c) => Some(c.into()),
+        Err(_) if pre_epoch => None,
         Err(e) => {
             // webpki refuses CRLs outside its documented profile (e.g. no nextUpdate); anything else is reported
             out.push(Finding::new("REV-WEBPKI-REJECTS-CRL", "crl", format!("{:?}", e)));
@@ -284,7 +294,7 @@ pub fn add_sections(rep: &mut Report, prop: &str, thorough: bool, conformant_onl
     let space = crl_space(&iss, conformant_only);
     let cap = if thorough { 1100 } else { 50 };
     {
-        let sec = Section::new("crl/levels", "all CRL states with exactly k non-default dimensions (updates 143, crl_number 9, idp 9, revoked 8, key_id 5, issuer 23)").with_deadline(cap);
+        let sec = Section::new("crl/levels", "all CRL states with exactly k non-default dimensions (updates 288, crl_number 9, idp 9, revoked 8, key_id 5, issuer 23)").with_deadline(cap);
         run::levels(&sec, &space, if thorough { 5 } else { 3 }, &|c, _| judge(prop, &known, c, &iss, true));
         rep.add(sec);
     }
